@@ -20,7 +20,7 @@ from typing import Any, Dict, List, Optional, Tuple
 
 from ..core import Ctx, MachineryError, chunks, tla
 
-KINDS = ["docstr", "def", "adef", "cm", "sm", "prop", "setter", "class", "exc", "assign", "oldcm", "oldsm", "if", "ifmain", "try", "with", "for", "while"]
+KINDS = ["docstr", "def", "adef", "cm", "sm", "prop", "setter", "class", "exc", "assign", "oldcm", "oldsm", "if", "ifmain", "try", "with", "for", "while", "mivar", "mivard"]
 CFG = """SPECIFICATION Spec
 CONSTANTS MaxN = {maxn}
   Names = {names}
@@ -91,6 +91,14 @@ def render(p: Dict[str, Any]) -> str:
         elif k == "docstr":
             out.append(f"{sp}'''adoc:{i}'''")
             return
+        elif k in ("mivar", "mivard"):
+            # a method named after its node whose body assigns the instance variable (and documents it with a bare string)
+            out.append(f"{sp}def _m{i}(self):")
+            out.extend(docstring_lines(i, sp + "    "))
+            out.append(f"{sp}    self.{name} = {literal(i)}")
+            if k == "mivard":
+                out.append(f"{sp}    '''adoc:{i}'''")
+            return
         else:
             out.append(sp + {"if": ["if True:", "if 1 == 1:", "if __name__ != '__main__':", "if __name__ == 'm' or True:"][i % 4],
                              "ifmain": "if __name__ == '__main__':", "try": "try:",
@@ -112,6 +120,8 @@ def render(p: Dict[str, Any]) -> str:
 def capsify(p: Dict[str, Any]) -> Dict[str, Any]:
     """The same program with every name in upper case (AA, BB): pydoctor treats such variables as constants, Python does not care."""
     def up(n: str) -> str:
+        if n.startswith("_m"):          # the method a mivar statement defines is named after its node
+            return n
         head, _, tail = n.partition(".")
         return head.upper() * 2 + (("." + tail) if tail else "")
     q = json.loads(json.dumps(p))
@@ -180,7 +190,7 @@ def _pd_tables(sources: List[str]) -> List[Dict[str, Any]]:
                     K.STATIC_METHOD: "static method"}.get(o.kind, str(o.kind))
             return ("async " + base) if o.is_async and o.kind in (K.FUNCTION, K.METHOD) else base
         if isinstance(o, model.Attribute):
-            return "property" if o.kind is K.PROPERTY else "variable"
+            return "property" if o.kind is K.PROPERTY else "ivar" if o.kind is K.INSTANCE_VARIABLE else "variable"
         return type(o).__name__
 
     def nodeof(o: Any) -> Optional[int]:
@@ -386,11 +396,17 @@ def run(ctx: Ctx) -> int:
         # re-assignments and their docstrings: every 4-statement program over assignments, strings, a block and a def
         r4 = ctx.tlc("Builder", CFG.format(maxn=4, names=tla({"a", "b"}), kinds=tla({"assign", "docstr", "try"})), workers="auto", check=True, timeout=3000)
         progs = progs + [p for p in r4.printed if p["n"] == 4]
+        # instance variables: methods assigning self.<name> before and after definitions / class variables / properties of that name
+        r4i = ctx.tlc("Builder", CFG.format(maxn=4, names=tla({"a"}), kinds=tla({"class", "def", "assign", "prop", "mivar", "mivard"})), workers="auto", check=True, timeout=3000)
+        progs = progs + [p for p in r4i.printed if any(k in ("mivar", "mivard") for k in p["kind"])]
     else:
         # every 4-statement program over one name and the kinds that interact (duplicates, wrapping, properties, blocks)
         r4 = ctx.tlc("Builder", CFG.format(maxn=4, names=tla({"a"}), kinds=tla({"docstr", "def", "cm", "prop", "setter", "class", "assign", "oldsm", "if", "ifmain"})),
                      workers="auto", check=True, timeout=6000)
         progs = progs + [p for p in r4.printed if p["n"] == 4]
+        r5i = ctx.tlc("Builder", CFG.format(maxn=5, names=tla({"a"}), kinds=tla({"class", "def", "assign", "prop", "setter", "docstr", "mivar", "mivard"})), workers="auto", check=True, timeout=6000)
+        progs = progs + [p for p in r5i.printed if any(k in ("mivar", "mivard") for k in p["kind"])]
+    ctx.extra["programs_with_instance_variables"] = sum(1 for p in progs if any(k in ("mivar", "mivard") for k in p["kind"]))
     ctx.exhaustive = True
     if not progs:
         raise MachineryError("TLC emitted no program")
@@ -433,19 +449,28 @@ def run(ctx: Ctx) -> int:
             if real_cmp != pdm:
                 ctx.drift_note({"source": src, "spec_documented": pdm, "real": real})
             diffs = []
+            ivar_nodes = {(p["nm"][i0], i0 + 1) for i0 in range(p["n"]) if p["kind"][i0] in ("mivar", "mivard")}
             for s in sorted(set(py) | set(real)):
                 a, b = py.get(s, {}), real.get(s, {})
                 for name in sorted(set(a) | set(b)):
-                    if a.get(name) != b.get(name):
-                        diffs.append({"scope": s, "name": name, "expected": a.get(name), "got": b.get(name)})
+                    ea, eb = a.get(name), b.get(name)
+                    if eb is not None and eb["kind"] == "ivar":
+                        # instance variables are documented on purpose although the class statement binds nothing for them;
+                        # a class variable also assigned through self is ONE documented variable (value of either assignment)
+                        if ea is None or (ea["kind"] == "variable" and (eb["node"] == ea["node"] or (name, eb["node"]) in ivar_nodes)):
+                            continue
+                    if ea != eb:
+                        diffs.append({"scope": s, "name": name, "expected": ea, "got": eb})
             # attribute docstrings: which string statement documents which variable (reference: Builder.tla RefVarDoc)
             want = {e["scope"]: {x["name"]: x["doc"] for x in e["docs"]} for e in p["pydoc"]}
             model_says = {e["scope"]: {x["name"]: x["doc"] for x in e["docs"]} for e in p["pddoc"]}
-            got_docs = {int(s): {nme: e.get("adoc", 0) for nme, e in ns.items() if e["kind"] in ("variable", "property")} for s, ns in d.items()}
+            got_docs = {int(s): {nme: e.get("adoc", 0) for nme, e in ns.items() if e["kind"] in ("variable", "ivar", "property")} for s, ns in d.items()}
             for s in want:
                 for nme, dj in want[s].items():
                     g = got_docs.get(s, {}).get(nme)
-                    if g is not None and real.get(s, {}).get(nme) == py.get(s, {}).get(nme) and g != dj:
+                    rk, pk = real.get(s, {}).get(nme), py.get(s, {}).get(nme)
+                    same = rk == pk or (rk and pk and rk["kind"] == "ivar" and pk["kind"] == "variable")
+                    if g is not None and same and g != dj:
                         diffs.append({"scope": s, "name": nme, "expected": {"adoc": dj}, "got": {"adoc": g}, "what": "attribute docstring"})
             for s in model_says:
                 for nme, dj in model_says[s].items():
@@ -471,7 +496,7 @@ def run(ctx: Ctx) -> int:
     # ---- multi-module packages: class vs exception class when the exception-ness comes through another module
     from .. import families, procrun
     from .. import projects as P
-    mm = list(families.t1_exceptions()) + list(families.t1_base_chains())[::9] + list(families.t4_cycles())[:2]
+    mm = list(families.t1_exceptions()) + list(families.t1_base_chains())[::9] + [q for q in families.t4_cycles() if q["meta"].get("late") is not None or q["meta"].get("starcycle")]
     oracles: Dict[int, Any] = {}
     mm_classes = 0
     for res in procrun.explore(ctx, mm):
